@@ -202,6 +202,16 @@ Proof.
   destruct (env_set ne k v); [apply IH, H2|reflexivity].
 Qed.
 
+Lemma dump_args_alike cx f en : forall args args',
+  map strip_e args = map strip_e args' ->
+  sim (dump_args (eval_expr cx f en) args) (dump_args (eval_expr cx f en) args').
+Proof.
+  induction args as [|a r IH]; intros [|a' r'] H; cbn [map] in H; try discriminate H; cbn [dump_args]; [reflexivity|].
+  injection H as H1 H2. pose proof (proj1 (exprs_alike f) cx en a a' H1) as S.
+  destruct (eval_expr cx f en a) as [v|ln msg| | |], (eval_expr cx f en a') as [v'|ln' msg'| | |]; cbn [sim] in S; try contradiction; try reflexivity.
+  subst v'. destruct (dump_value 0 v); [|reflexivity]. apply sim_bind; [apply IH, H2|intro; reflexivity].
+Qed.
+
 Definition PS (f : nat) : Prop :=
   (forall cx en s s', strip_s s = strip_s s' -> sim (eval_stmt cx f en s) (eval_stmt cx f en s')) /\
   (forall cx en ss ss' acc, map strip_s ss = map strip_s ss' -> sim (eval_block cx f en ss acc) (eval_block cx f en ss' acc)) /\
@@ -280,6 +290,7 @@ Proof.
     + (* slot *) injection H as _ H. pose proof (strip_o_cases _ _ H) as HC.
       destruct body as [b|], body0 as [b0|]; try contradiction; [|reflexivity].
       apply sim_bind; [apply IHb, HC|intro; reflexivity].
+    + (* dump *) injection H as H. apply sim_bind; [apply dump_args_alike, H|intro; reflexivity].
   - (* eval_block *)
     intros cx en ss ss' acc H. destruct ss, ss'; cbn [map] in H; try discriminate H; cbn [eval_block]; [reflexivity|].
     injection H as H1 H2. apply sim_bind; [apply IHs, H1|intro r]. cbv zeta.
